@@ -131,11 +131,6 @@ type c07Open struct {
 
 // open = NewStream + first use (write the nonce, read the echo)
 func (w *c07World) open(out *verifh.Out, reqs []int64, nonce int64, first byte, allow, late bool, fop int64) c07Open {
-	o := c07Open{res: 0, dp: -1, use: -1, h: -1, lp: -1, nonce: nonce}
-	pids := make([]protocol.ID, len(reqs))
-	for i, r := range reqs {
-		pids[i] = c07Names[r]
-	}
 	ctx, cancel := context.WithTimeout(context.Background(), 4*time.Second)
 	defer cancel()
 	if allow {
@@ -146,15 +141,26 @@ func (w *c07World) open(out *verifh.Out, reqs []int64, nonce int64, first byte, 
 		ctx, cancel = context.WithTimeout(network.WithNoDial(context.Background(), "c07"), 80*time.Millisecond)
 		defer cancel()
 	}
+	return w.openCtx(ctx, out, reqs, nonce, first, w.limited && !allow, late, fop)
+}
+
+// openCtx: NewStream under the caller's context + first use; gate: the context does not
+// allow the only (limited) connection there is during its lifetime
+func (w *c07World) openCtx(ctx context.Context, out *verifh.Out, reqs []int64, nonce int64, first byte, gate, late bool, fop int64) c07Open {
+	o := c07Open{res: 0, dp: -1, use: -1, h: -1, lp: -1, nonce: nonce}
+	pids := make([]protocol.ID, len(reqs))
+	for i, r := range reqs {
+		pids[i] = c07Names[r]
+	}
 	s, err := w.d.NewStream(ctx, w.l.ID(), pids...)
 	if err != nil {
-		if errors.Is(err, context.DeadlineExceeded) && !(w.limited && !allow) {
+		if errors.Is(err, context.DeadlineExceeded) && !gate {
 			w.mu.Lock()
 			w.timeouts++
 			w.mu.Unlock()
 		}
 		switch {
-		case w.limited && !allow:
+		case gate:
 			o.res = 5
 			out.Cover("open.fail.limited_conn_not_allowed")
 		case errors.Is(err, msmux.ErrNoProtocols):
@@ -472,11 +478,10 @@ func (r *c07Run) settle(dead map[int64]bool) {
 		}
 		hl := len(w.heldL)
 		w.mu.Unlock()
-		cd, cl := w.connD(), w.connL()
-		if cd == nil || cl == nil {
+		nd, nl, ok := w.streamCounts()
+		if !ok {
 			return
 		}
-		nd, nl := len(cd.GetStreams()), len(cl.GetStreams())
 		if nd == len(r.slots) && nl == hl && hl == len(r.slots) {
 			stable++
 			if stable >= 3 {
@@ -487,11 +492,15 @@ func (r *c07Run) settle(dead map[int64]bool) {
 		}
 		if time.Now().After(deadline) {
 			w.fail(fmt.Sprintf("settle timeout: dialer streams %d listener streams %d heldL %d slots %d", nd, nl, hl, len(r.slots)))
-			for _, s := range cd.GetStreams() {
-				r.out.Comment(fmt.Sprintf("dialer stream %s proto %q", s.ID(), s.Protocol()))
+			for _, c := range w.d.Network().ConnsToPeer(w.l.ID()) {
+				for _, s := range c.GetStreams() {
+					r.out.Comment(fmt.Sprintf("dialer stream %s proto %q", s.ID(), s.Protocol()))
+				}
 			}
-			for _, s := range cl.GetStreams() {
-				r.out.Comment(fmt.Sprintf("listener stream %s proto %q", s.ID(), s.Protocol()))
+			for _, c := range w.l.Network().ConnsToPeer(w.d.ID()) {
+				for _, s := range c.GetStreams() {
+					r.out.Comment(fmt.Sprintf("listener stream %s proto %q", s.ID(), s.Protocol()))
+				}
 			}
 			return
 		}
@@ -501,6 +510,19 @@ func (r *c07Run) settle(dead map[int64]bool) {
 
 // batch runs n opens concurrently (n = 1: a plain sequential open)
 func (r *c07Run) batch(reqs [][]int64, modes []int64, rnd *verifh.Rand) {
+	r.batchOrPark(reqs, modes, rnd, false)
+}
+
+func (r *c07Run) park(reqs [][]int64, modes []int64, rnd *verifh.Rand) {
+	if !r.w.limited {
+		// (replay of a malformed case: without a limited connection nothing parks)
+		r.batchOrPark(reqs, modes, rnd, false)
+		return
+	}
+	r.batchOrPark(reqs, modes, rnd, true)
+}
+
+func (r *c07Run) batchOrPark(reqs [][]int64, modes []int64, rnd *verifh.Rand, park bool) {
 	w := r.w
 	n := len(reqs)
 	obs := make([]c07Open, n)
@@ -513,16 +535,22 @@ func (r *c07Run) batch(reqs [][]int64, modes []int64, rnd *verifh.Rand) {
 			firsts[i] = 0x20 // a token length the listener would wait for
 		}
 	}
-	var wg sync.WaitGroup
-	for i := range reqs {
-		wg.Add(1)
-		go func(i int) {
-			defer wg.Done()
-			obs[i] = w.open(r.out, reqs[i], nonces[i], firsts[i], modes[i]&1 == 1, modes[i]&2 == 2, (modes[i]>>2)%c07NumFops)
-		}(i)
+	var mx []int64
+	if park {
+		mx = r.runParked(reqs, modes, nonces, firsts, obs, rnd)
+	} else {
+		var wg sync.WaitGroup
+		for i := range reqs {
+			wg.Add(1)
+			go func(i int) {
+				defer wg.Done()
+				obs[i] = w.open(r.out, reqs[i], nonces[i], firsts[i], modes[i]&1 == 1, modes[i]&2 == 2, (modes[i]>>2)%c07NumFops)
+			}(i)
+		}
+		wg.Wait()
 	}
-	wg.Wait()
 	dead := map[int64]bool{c07Requestless: true}
+	var parkSlots []int64
 	var closedSlots []int64
 	for i := range obs {
 		if obs[i].use == 1 && obs[i].closed {
@@ -530,6 +558,7 @@ func (r *c07Run) batch(reqs [][]int64, modes []int64, rnd *verifh.Rand) {
 			r.nslot++
 		} else if obs[i].use == 1 {
 			r.slots[r.nslot] = c07Slot{d: obs[i].s, nonce: nonces[i]}
+			parkSlots = append(parkSlots, r.nslot)
 			r.nslot++
 		} else {
 			dead[nonces[i]] = true
@@ -540,10 +569,17 @@ func (r *c07Run) batch(reqs [][]int64, modes []int64, rnd *verifh.Rand) {
 	invs := w.invs
 	w.invs = nil
 	w.mu.Unlock()
-	r.line = append(r.line, 5, int64(n))
+	if park {
+		r.line = append(r.line, 9, int64(n))
+	} else {
+		r.line = append(r.line, 5, int64(n))
+	}
 	for i, q := range reqs {
 		r.line = append(r.line, modes[i], int64(len(q)))
 		r.line = append(r.line, q...)
+	}
+	if park {
+		r.line = append(r.line, mx...)
 	}
 	var un [][2]int64
 	for i := range obs {
@@ -580,6 +616,13 @@ func (r *c07Run) batch(reqs [][]int64, modes []int64, rnd *verifh.Rand) {
 	for _, sl := range closedSlots {
 		r.line = append(r.line, 6, sl, 0)
 		r.line = append(r.line, w.scopeObs()...)
+	}
+	if park {
+		// the streams obtained over the direct connection go first, then the connection itself
+		for _, sl := range parkSlots {
+			r.closeSlot(sl, 1)
+		}
+		r.endParking()
 	}
 }
 
